@@ -34,6 +34,12 @@ def main():
         a = sh("git apply %s" % patch, cwd=REPO)
         if a.returncode != 0:
             rows.append((sid, "patch does not apply", ""))
+            print("%-8s PATCH DOES NOT APPLY to the current tree (re-base it; keep the original as patch_orig.diff)" % sid, flush=True)
+            mp = os.path.join(d, "meta.json")
+            if os.path.exists(mp):
+                m = json.load(open(mp))
+                m["detected_by"] = {"check": "./check %s quick" % prop, "verdict": "not run: patch does not apply to the current tree", "stages": [], "violation_lines": 0}
+                json.dump(m, open(mp, "w"), indent=1)
             continue
         try:
             r = sh("./check %s quick" % prop, cwd=ROOT, timeout=1800)
